@@ -1,12 +1,13 @@
 ----------------------------- MODULE MC_Evidence -----------------------------
 EXTENDS Evidence, TLC
-VARIABLE x
-Init == x = 0
-Next == UNCHANGED x
+Init == EInit
+Next == ENext
 Inv1 == GenuineVerifies
 Inv2 == SingleTamperDetected(TRUE)
 Inv3 == JointExceptionPasses
 \* as built before the repair: the algorithm field of AA evidence is not compared
 AsBuiltGap == ~SingleTamperDetected(FALSE)
 Emit == PrintT(<< "T", CamFields, CaFields, AaFields >>)
+\* the expected offline vector of every (live set, live PA verdict, tamper): replayed into the real Verifier
+EmitV == phase = "verified" => PrintT(<< "V", live, livePa, tamper, offline >>)
 =============================================================================
